@@ -81,6 +81,17 @@ fn mutate(rng: &mut Rng, st: &mut State, earlier: &[State]) -> &'static str {
         put(st, &p, Ent::File { content: content(rng), exec: false });
         return "add-dir-sibling";
     }
+    if rng.chance(1, 12) {
+        // a new directory holding two sub-directories with identical contents (two plug-ins copied
+        // from one template): the two sub-trees are one git object under two names
+        let top = format!("{}/twins{}", rng.pick(DIRS), rng.below(2));
+        let (ca, cb) = (content(rng), content(rng));
+        for sub in ["alpha", "beta"] {
+            put(st, &format!("{top}/{sub}/mod.rs"), Ent::File { content: ca.clone(), exec: false });
+            st.insert(format!("{top}/{sub}/util.rs"), Ent::File { content: cb.clone(), exec: false });
+        }
+        return "add-twin-subtrees";
+    }
     match rng.below(12) {
         0 | 1 => {
             let p = rand_path(rng);
